@@ -40,10 +40,11 @@ using namespace bfl;
 using namespace Eigen;
 
 // ---------------------------------------------------------------- reporting
-static const char* g_entry = "none";
-struct E { vf::Entry e; explicit E(const char* l) : e(l) { g_entry = l; } };
-
 extern "C" void __sanitizer_set_death_callback(void (*)(void)) __attribute__((weak));
+static const char* g_entry = "none";
+// UBSan's abort path runs no callback: under the sanitizers every entry is announced on stderr beforehand
+struct E { vf::Entry e; explicit E(const char* l) : e(l) { g_entry = l; if (__sanitizer_set_death_callback) std::fprintf(stderr, "BFL_VERIF_ENTER entry=%s\n", l); } };
+
 static void on_sanitizer_death() {
     char buf[256];
     int n = std::snprintf(buf, sizeof buf, "\nBFL_VERIF_SANITIZER entry=%s\n", g_entry);
@@ -145,9 +146,9 @@ struct UAddState : public AdditiveStateModel {
 // predicted measurement and of the innovation
 struct UMeas : public AdditiveMeasurementModel {
     Layout lm, lin_; long r, ir; bool valid; long pr, pc;   // pr/pc < 0: msize x cols
-    long yr, yc;
+    long yr, yc, rcols;
     UMeas(const Layout& lm_, const Layout& li, long r_, long ir_, bool v, long pr_ = -1, long pc_ = -1)
-        : lm(lm_), lin_(li), r(r_), ir(ir_), valid(v), pr(pr_), pc(pc_), yr(lm_.dim()), yc(1) {}
+        : lm(lm_), lin_(li), r(r_), ir(ir_), valid(v), pr(pr_), pc(pc_), yr(lm_.dim()), yc(1), rcols(r_) {}
     bool freeze(const Data&) override { return true; }
     std::pair<bool, Data> measure(const Data&) const override {
         MatrixXd y = filled(yr, yc, 4); fix_quaternions(y, lm);
@@ -165,7 +166,7 @@ struct UMeas : public AdditiveMeasurementModel {
         MatrixXd inn = filled(ir, pm.cols(), 6);
         return std::make_pair(true, Data(inn));
     }
-    std::pair<bool, MatrixXd> getNoiseCovarianceMatrix() const override { return std::make_pair(true, spd(r, 5)); }
+    std::pair<bool, MatrixXd> getNoiseCovarianceMatrix() const override { return std::make_pair(true, r == rcols ? spd(r, 5) : filled(r, rcols, 5)); }
     VectorDescription getInputDescription() const override { return desc(lin_, r); }
     VectorDescription getMeasurementDescription() const override { return desc(lm); }
 };
@@ -319,6 +320,7 @@ static void k_ut(const vf::Case& c) {
         std::tie(o, pxy) = sigma_point::unscented_transform(in, wt, static_cast<AdditiveStateModel&>(m)); ob(1); ob_ut(o, pxy);
     } else {
         UMeas m(lo, li, qr, lo.cov(), valid, pr, pc);
+        m.rcols = qc;
         bool v; GaussianMixture o; MatrixXd pxy;
         if (variant == 3) { E e("sigma_point::unscented_transform(MeasurementModel)");
             std::tie(v, o, pxy) = sigma_point::unscented_transform(in, wt, static_cast<MeasurementModel&>(m)); }
